@@ -26,14 +26,14 @@ CHECKS.update({
  "C19": node("§6 C19, §4 simnode chain mode", "deterministic simulation; from-scratch MMR (own RFC 0044 merge) as block builder and monitor across reorgs and restarts; membership proofs generated from the node's stored MMR verified against the model; block-filter builder run as simulator-placed passes and compared with model-derived filters and hash chain",
    "Every block on every fork commits to the naive MMR root over its ancestors (equality enforced through the node's own verifier on model-built blocks), wrong roots are rejected, after every reorg/restart the node's chain_root_mmr roots equal the naive ones, proofs for seeded position sets verify against the model's root and leaves and against nothing else, and after every filter-builder pass (lagging by blocks, reorgs, restarts) every main-chain block's filter matches exactly its scripts and the filter hashes chain."),
  "C20": node("§6 C20, §4 simnode + process restarts", "deterministic simulation of reorgs relative to the proposal window with clean restarts (new OS process) at arbitrary operation indexes",
-   "After every tip change and after every restart (start-up reconstruction path) the snapshot's proposal view {set, gap} must equal the union over the model's window, for windows 1..3 / 2..11, chains shorter than the window and reorgs deeper than it."),
+   "After every tip change and after every restart (start-up reconstruction path) the snapshot's proposal view {set, gap} must equal the union over the model's window, for windows 1..3 / 2..11, chains shorter than the window and reorgs deeper than it. At every tip change the ids the chain service reports as dropped (what the tx-pool is told; recorded by a hook) must equal the committable set at the old tip minus the committable set at the new tip, both derived from the model's chains."),
 })
 CHECKS["C07"] = node("§6 C07 (partial claim), §4 simnode long-epoch family", "deterministic simulation of long-epoch chains mined on a skewed/stalling/jumping simulated clock with varying uncle rates; node's epoch transitions vs exact big-rational re-computation plus issuance and conversion monitors",
    "PARTIAL: (proof of work) under the real Eaglesong / EaglesongBlake2b engines the header stage must accept exactly the nonces the model's own reading of the rule accepts, and blocks or uncles whose only flaw is a nonce above the target, or a target other than the epoch's, must never be attached; (epochs) for every epoch transition reached by simulated histories (300-1800 block epochs, clock regimes from 1 ms to days per block, uncle rates 0-20%, halvings) the node's next-epoch length, hash-rate estimate, difficulty/compact target and rewards must equal an independent exact-arithmetic evaluation, stay within the consensus bounds and the x2 dampening, epoch fields must be gap-free, per-epoch reward sums must equal scheduled issuance, and compact/target/difficulty conversions must agree with an independent implementation. Not decided: the same over all u64/U256 inputs and all compact encodings (pure functions without schedule, clock or fault, outside this technique); a header hash exactly equal to its target is not reachable by nonce search.")
-CHECKS["C14"] = node("§6 C14, §4 simnode twins", "deterministic simulation run on twin nodes that differ only in cache configuration (store read caches default/0/1/mixed, verification cache warm or emptied before every verify step); differential comparison of every verdict and query answer, plus failing-witness twins of cached transactions",
+CHECKS["C14"] = node("§6 C14, §4 simnode twins", "deterministic simulation run on twin nodes that differ only in cache configuration (store read caches default/0/1/mixed, verification cache warm or emptied before every verify step); differential comparison of every verdict and query answer, plus failing-witness twins of cached transactions; second part: pool-mode twins (same hand-polled task schedule, verification cache warm / emptied before every task poll and verify step, store caches on/off) comparing every submission result, pool content at rest, template and recorded fee/cycles on the pool-then-block path",
    "Each seeded scenario is executed by four twin nodes; all block verdicts, BlockExt records (minus received_at) and the answers of the chain queries for every block ever delivered - including invalid blocks that were stored and deleted - must be identical. Scenarios plant an otherwise identical sibling of a verified block whose committed transaction carries a failing witness under the same tx hash and make that branch heavier, so a cache keyed by anything less than the witness hash, or a skipped script run on a hit, attaches an invalid block. Found (as C01/C14) the stale StoreCache after delete_block, fixed in c00ffd0.")
 CHECKS["C10"] = dict(engine="simnode", category="exploration", design_ref="§6 C10, §4 simnode with the freezer on + E-CRASH",
-   technique="deterministic simulation of block-import histories with freeze passes at arbitrary points on the real node (real ckb-freezer files), every chain query checked against the reference model after every pass; freezer-on/off twin runs; process death at every write and freezer fail point inside every pass, with seeded loss of the un-fsynced freezer tail",
+   technique="deterministic simulation of block-import histories with freeze passes at arbitrary points on the real node (real ckb-freezer files), every chain query checked against the reference model after every pass; freezer-on/off twin runs; process death at every write and freezer fail point inside every pass, with seeded loss of the un-fsynced freezer tail; the per-pass freeze limit is a knob (1-8 blocks in half of the runs) so that passes stop at it and the next pass continues from the previous frozen height",
    text="Seeded histories over toy epochs (forks at heights that later get frozen, uncles, proposals, extensions, orphans, duplicates, restarts) with explicit freeze passes; after every pass / restart / at the end every main-chain block and each of its parts, every transaction with its location, ancestor lookups and the full live-cell state must read exactly as the model built them, Freezer::number is monotone, at or below the last block of epoch(tip)-2, and side-chain blocks at frozen heights answer None or themselves. Twin runs with the freezer off must give identical answers. For sampled histories every crash point inside every pass is enumerated (RocksDB writes of the wipe-out before/after, freezer write-head / write-index sites, with and without losing the un-fsynced tail). Five genuine defects found and fixed (8b5c6e5, c24557f, ba9dd17, bc0a2f4, b0dc427).",
    note=NODE_NOTE + " Envelope: reorganisations reaching below the freezer's height (> 2 epochs deep) are not generated (the freezer cannot undo them by design).")
 CHECKS["C08"] = dict(engine="simnode", category="fault_enumeration", design_ref="§6 C08, §4 simnode segments",
@@ -50,7 +50,7 @@ CHECKS.update({
    "At arbitrary points of seeded histories (reorgs, mined templates, pooled ancestors) probe transactions with exactly one field at/just before/just after a rule boundary (six since kinds and malformed encodings, cellbase maturity, capacity and occupied size, liveness/duplicates, cell and header deps, a witness-dependent lock) are judged by the pool and by block verification; the verdicts must equal the evaluator's in both directions. A chain-mode part commits conflicting twins of valid candidates that break one rule of their own (capacity, occupied size, NervosDAO maximum withdraw) through mutant blocks anywhere in trees with reorganisations. Exploration is the right level: contexts x probes is unbounded; boundaries are hit by construction because probes are built from the context at probe time."),
  "C12": pool("§6 C12, §4 simnode pool task mode", "deterministic simulation interleaving submissions (suspended at yield points), mined templates and model-built competing branches; pool vs reference-chain model at quiescent points",
    "At every quiescent point the pool must hold no committed transaction, no transaction whose input/dep is unknown to chain+pool, no double spend, and every entry's stage must equal the model's proposal-window membership. Three genuine defects (stale gap stage after reorg, expiry orphaning descendants, children of un-re-addable detached transactions) were found and fixed. The 'admissible detached txs are back' direction is not asserted."),
- "C13": pool("§6 C13, §4 simnode pool task mode", "deterministic simulation: templates requested at simulator-chosen instants (also under consensus limits small enough to be reached) are sealed and fed to the node's own chain stages; self-oracle plus independent model re-derivation",
+ "C13": pool("§6 C13, §4 simnode pool task mode", "deterministic simulation: templates requested at simulator-chosen instants (also under consensus limits small enough to be reached) are sealed and fed to the node's own chain stages; self-oracle plus independent model re-derivation; time-locked pool transactions with reorganisations to shorter heavier branches",
    "Every template requested (also while block-assembler updates are still queued, right after reorgs, with uncles/proposals/commits) is sealed and imported by the same node: it must be accepted and become the tip when it names the tip, transactions parents-first; the reference model re-derives epoch, reward, DAO, chain root, window and uncle rules for each. Templates naming a stale parent are only stored as side blocks; they are counted as not verified, never as passes."),
 })
 
